@@ -62,6 +62,15 @@ extern "C" int __wrap_clock_gettime(clockid_t id, struct timespec *ts) {
   return __real_clock_gettime(id, ts);
 }
 
+// ---- fake wall clock for REAL_TIME_CLOCK (0 = real time)
+static time_t g_fake_time = 0;
+extern "C" time_t __real_time(time_t *t);
+extern "C" time_t __wrap_time(time_t *t) {
+  if (!g_fake_time) return __real_time(t);
+  if (t) *t = g_fake_time;
+  return g_fake_time;
+}
+
 // ---- printing / parsing
 static string uid_s(const UID &u) {
   return vh::str((static_cast<unsigned long long>(u.ManufacturerId()) << 32) | u.DeviceId());
@@ -209,6 +218,33 @@ class TestSensor : public Sensor {
  protected:
   int16_t PollSensor() { return poll; }
 };
+static void make_test_sensors(const vector<unsigned long long> &a, Sensors *ss) {
+  size_t n = a.size() / 4;
+  for (size_t i = 0; i < n; i++) {
+    TestSensor *t;
+    if (i == 0) t = new TestSensor(static_cast<rdm_sensor_type>(0), static_cast<rdm_pid_unit>(1), static_cast<rdm_pid_prefix>(0),
+                                   "Fake Temperature", Sensor::SensorOptions(true, true, 0, 100, 10, 20));
+    else if (i == 1) t = new TestSensor(static_cast<rdm_sensor_type>(1), static_cast<rdm_pid_unit>(2), static_cast<rdm_pid_prefix>(3),
+                                        "No recorded value", Sensor::SensorOptions(false, true, -100, 100, -10, 10));
+    else t = new TestSensor(static_cast<rdm_sensor_type>(4), static_cast<rdm_pid_unit>(0), static_cast<rdm_pid_prefix>(9),
+                            "A sensor whose description is longer than the field",
+                            Sensor::SensorOptions(true, false, 0, -1, 0, 1));
+    t->poll = a[4 * i]; t->m_lowest = a[4 * i + 1]; t->m_highest = a[4 * i + 2]; t->m_recorded = a[4 * i + 3];
+    ss->push_back(t);
+  }
+}
+static string sensors_dyn_s(const Sensors &ss) {
+  vector<unsigned long long> a;
+  for (size_t i = 0; i < ss.size(); i++) {
+    TestSensor *t = static_cast<TestSensor*>(ss[i]);
+    a.push_back(static_cast<uint16_t>(t->poll)); a.push_back(static_cast<uint16_t>(t->m_lowest));
+    a.push_back(static_cast<uint16_t>(t->m_highest)); a.push_back(static_cast<uint16_t>(t->m_recorded));
+  }
+  if (a.empty()) return "-";
+  string s = vh::str(a[0]);
+  for (size_t i = 1; i < a.size(); i++) s += "," + vh::str(a[i]);
+  return s;
+}
 static const PersonalityCollection *cfg_pers() {
   static PersonalityCollection *inst = NULL;
   if (!inst) {
@@ -285,18 +321,7 @@ static string do_help(const vector<string> &arg) {
     case 15: case 16: case 17: case 18: {
       Sensors ss;
       size_t n = a.size() / 4;
-      for (size_t i = 0; i < n; i++) {
-        TestSensor *t;
-        if (i == 0) t = new TestSensor(static_cast<rdm_sensor_type>(0), static_cast<rdm_pid_unit>(1), static_cast<rdm_pid_prefix>(0),
-                                       "Fake Temperature", Sensor::SensorOptions(true, true, 0, 100, 10, 20));
-        else if (i == 1) t = new TestSensor(static_cast<rdm_sensor_type>(1), static_cast<rdm_pid_unit>(2), static_cast<rdm_pid_prefix>(3),
-                                            "No recorded value", Sensor::SensorOptions(false, true, -100, 100, -10, 10));
-        else t = new TestSensor(static_cast<rdm_sensor_type>(4), static_cast<rdm_pid_unit>(0), static_cast<rdm_pid_prefix>(9),
-                                "A sensor whose description is longer than the field",
-                                Sensor::SensorOptions(true, false, 0, -1, 0, 1));
-        t->poll = a[4 * i]; t->m_lowest = a[4 * i + 1]; t->m_highest = a[4 * i + 2]; t->m_recorded = a[4 * i + 3];
-        ss.push_back(t);
-      }
+      make_test_sensors(a, &ss);
       r.reset(f == 15 ? ResponderHelper::GetSensorDefinition(q.get(), ss) :
               f == 16 ? ResponderHelper::GetSensorValue(q.get(), ss) :
               f == 17 ? ResponderHelper::SetSensorValue(q.get(), ss) :
@@ -555,6 +580,65 @@ static string do_ackt(const vector<string> &a) {
   return "t=" + t + ";qc=" + vh::str(static_cast<int>(dev.QueuedMessageCount()));
 }
 
+// ================= whole responders against their handler-by-handler models =================
+static string do_resp(const vector<string> &a) {
+  const string &kind = a[1];
+  UID uid = uid_p(a[2]);
+  vector<string> steps = vh::split(a[8], '/');
+  string t;
+  if (kind == "sensor") {
+    SensorResponder dev(uid);
+    for (size_t i = 0; i < dev.m_sensors.size(); i++) delete dev.m_sensors[i];
+    dev.m_sensors.clear();
+    vector<unsigned long long> init;
+    if (a[7] != "-") { vector<string> p = vh::split(a[7], ','); for (size_t i = 0; i < p.size(); i++) init.push_back(vh::num(p[i])); }
+    make_test_sensors(init, &dev.m_sensors);
+    for (size_t i = 0; i < steps.size(); i++) {
+      Capture cap; send(&dev, req_p(steps[i]), &cap);
+      if (i) t += "/";
+      t += cap.Joined();
+    }
+    return "t=" + t + ";a=" + sensors_dyn_s(dev.m_sensors) + ";id=" + (dev.m_identify_mode ? "1" : "0");
+  }
+  if (kind == "moving") {
+    vector<string> in = vh::split(a[7], ',');
+    g_fake_time = static_cast<time_t>(vh::num(in[1]));
+    MovingLightResponder dev(uid);
+    for (size_t i = 0; i < steps.size(); i++) {
+      Capture cap; send(&dev, req_p(steps[i]), &cap);
+      if (i) t += "/";
+      t += cap.Joined();
+    }
+    g_fake_time = 0;
+    std::ostringstream o;
+    o << dev.m_start_address << "," << static_cast<int>(dev.m_personality_manager.m_active_personality) << ","
+      << (dev.m_identify_mode ? 1 : 0) << "," << dev.m_device_hours << "," << dev.m_lamp_hours << "," << dev.m_lamp_strikes << ","
+      << static_cast<int>(dev.m_lamp_state) << "," << static_cast<int>(dev.m_lamp_on_mode) << "," << dev.m_device_power_cycles
+      << "," << static_cast<int>(dev.m_display_invert) << "," << static_cast<int>(dev.m_display_level) << ","
+      << (dev.m_pan_invert ? 1 : 0) << "," << (dev.m_tilt_invert ? 1 : 0) << "," << (dev.m_pan_tilt_swap ? 1 : 0) << ","
+      << static_cast<int>(dev.m_power_state);
+    return "t=" + t + ";a=" + o.str() + ";s=" + vh::hex(dev.m_device_label) + ";l=" + vh::hex(dev.m_language);
+  }
+  if (kind.compare(0, 6, "dimmer") == 0) {
+    int n = vh::num(kind.substr(6));
+    DimmerResponder dev(uid, n);
+    for (size_t i = 0; i < steps.size(); i++) {
+      Capture cap; send(&dev, req_p(steps[i]), &cap);
+      if (i) t += "/";
+      t += cap.Joined();
+    }
+    string st;
+    for (std::map<uint16_t, DimmerSubDevice*>::iterator it = dev.m_sub_devices.begin(); it != dev.m_sub_devices.end(); ++it) {
+      DimmerSubDevice *d = it->second;
+      st += vh::str(static_cast<int>(d->m_personality_manager.m_active_personality)) + "," + vh::str(d->m_start_address) + "," +
+            (d->m_identify_on ? "1" : "0") + "," + vh::str(static_cast<int>(d->m_identify_mode)) + ",";
+    }
+    st += string(dev.m_root_device->m_identify_on ? "1" : "0") + "," + vh::str(static_cast<int>(dev.m_root_device->m_identify_mode));
+    return "t=" + t + ";a=" + st;
+  }
+  return "bad-kind";
+}
+
 static string handle(const string &p) {
   vector<string> a = vh::split(p);
   if (a[0] == "disp" && a.size() == 6) return do_disp(a);
@@ -562,10 +646,13 @@ static string handle(const string &p) {
   if (a[0] == "help" && a.size() == 5) return do_help(a);
   if (a[0] == "sweep" && a.size() == 4) return do_sweep(a);
   if (a[0] == "ackt" && a.size() == 7) return do_ackt(a);
+  if (a[0] == "resp" && a.size() == 9) return do_resp(a);
   return "bad-op";
 }
 
 int main(int argc, char **argv) {
   ola::InitLogging(ola::OLA_LOG_NONE, ola::OLA_LOG_NULL);
+  setenv("TZ", "UTC", 1);
+  tzset();
   return vh::run(argc, argv, handle, 120);
 }
